@@ -35,6 +35,42 @@ T = {
  'C26': (False, 'differential runFrame vs documented stepping order on generated programs + deterministic cancellation points', '', '', '§5 C26'),
 }
 
+def claim(pid, text, note):
+    T[pid] = (True, T[pid][1], text, note, T[pid][4])
+
+claim('C06', 'Single-write sweep from power-on (every I/O address x all 256 values; every memory address x 12 values, thorough all 256) and thousands of rapid write/read/run sequences over the whole 64 KiB on ROM-only, MBC1+RAM and MBC5+RAM cartridges are compared read by read with a reference address map (plain regions, echo in both directions, FEA0-FEFF, unmapped I/O, per-register writable/ones masks, LY/DIV never taking the written value, FF46 read-back).',
+      'OBP0/OBP1 bits 0-1 and the sound registers (C18) are not judged here; VRAM/OAM are only touched with the LCD off and outside DMA; TIMA is judged with the timer stopped.')
+claim('C07', 'From 8 machine states (every controller type, LCD on/off, APU on/off with running channels, running timer, selected clock register) every I/O address x 16 values (thorough 256) and a boundary-weighted sweep of 0000-FEFF (thorough every address), plus rapid (state, preamble, write) cases: all 64 KiB are read before and after each single write and the changed set must lie inside the documented effect set of the written address.',
+      'The effect table is taken from the property statement; reads used for the snapshots are side-effect free in the states used (no CPU running).')
+claim('C08', 'From reset every cartridge type x declared ROM size x control-address variant x all 256 values, every MBC1 (BANK1,BANK2,MODE) triple and MBC5 (low,high) pairs are enumerated, plus rapid write sequences per controller; after every write the page mapped in each window is identified by page signatures and compared with a reference controller, and ROM contents are re-verified after each sequence.',
+      'Reference controllers written from Pan Docs; quick tier rotates one cartridge type per controller for the largest ROM sizes.')
+claim('C09', 'Every enable byte x enable-address variant, every bank-select byte x RAM size code, every A000-BFFF address of a ROM-only cartridge, plus rapid bus-level histories per controller (enable, bank select, MBC1 mode, write, read, dump) are compared with a reference cell store (disabled reads FF, banks modulo size, MBC2 512 half-bytes with upper nibble 1, DumpRAM agrees on every written cell).',
+      'Never-written cells and RAM size code 1 beyond its first 2 KiB are not compared.')
+claim('C10', 'All 88 473 600 in-range clock states go through one increment step against the documented carry chain, out-of-range states are checked for width invariants, the time base is measured on real Mapper.EndMachineCycle runs of k*1048576-1/+1 cycles halted and not, and 20 000 rapid histories (advance, latch 00/01 in any order, select, read, write, halt, RAM enable) run against a reference clock.',
+      'Latch writes other than exactly 00 then 01 and the successor of an out-of-range counter are not asserted.')
+claim('C11', 'Hostile and well-formed ROM images (every length class, arbitrary headers), every cartridge type x size code x control address x value, rapid access sequences over the whole address space and rapid guest programs hammering cartridge registers, DMA, LCDC, APU, OAM pointers and HALT/STOP for up to 60 000 cycles: construction may panic, any later panic is a violation; thorough adds native go fuzzing of image bytes.',
+      'Undefined opcodes are never executed (boundary peek): executing one is the deliberate stop. Direct accesses are injected only after the first hardware cycle, the earliest point at which a guest program can make a data access.')
+claim('C13', 'The LCD is switched off at every cycle of selected lines (thorough: all 154) and back on, and thousands of rapid on/off/register-write schedules of 2-6 frames run with LY and STAT mode compared with a reference line/mode counter after every machine cycle and every write.',
+      'Reference counter implements exactly the schedule in the statement (first line 2 cycles short, 20/41/53, 114 per line, 154 lines).')
+claim('C14', 'Each single STAT source (or none) x every LYC 0-153 and 154/200/255 x 3-5 frames, plus rapid off/on schedules: IF bits 0-1 are read and cleared after every machine cycle and compared with the required / allowed / forbidden requests derived from the reference line counter.',
+      'OAM source at line 144 and requests at the instant of switch-on are don\'t-cares.')
+claim('C15', 'Thousands of rapid scenes inside the statement\'s preconditions (any tile data, both maps and addressing modes, any scroll/palettes, window at WX 7-166, up to 40 sorted 8x8 objects at any position incl. beyond every edge, <= 10 per line) are rendered for three frames and all 23 040 pixels compared with an independent reference renderer through calibrated grey shades.',
+      'Reference renderer written from Pan Docs; shade->RGBA is calibrated on four flat scenes and must be four distinct values.')
+claim('C16', 'Every source page 00-F1 on four cartridge types, a restart at every cycle of a running transfer, a source byte modified at every cycle, plus 12 000 rapid cases: all of FE00-FEFF is read every cycle (FF during cycles 2-160, source bytes from cycle 162).',
+      'Cycles 0, 1 and 161 of a transfer and modifications within 2 cycles of a byte\'s copy slot accept either value.')
+claim('C17', 'Pointer-walking programs (16-bit INC/DEC, PUSH/POP, LD through HL+/-, BC, DE) steered through FE00-FEFF run with the LCD switched off at every cycle of a line in every mode (and at power-on), and with the LCD on but scheduled outside mode 2; OAM must equal a plain-memory model updated only by the program\'s own stores.',
+      'With the LCD on, stores during mode 3 accept either value; mode-2 corruption itself is not modelled (allowed by the property).')
+claim('C18', 'Every address FF10-FF3F x all 256 values in a power-cycle template plus 8000 rapid histories of writes, power toggles, wave RAM writes and runs: all 20 registers, NR52 (mask F0) and wave RAM (channel 3 off) are read back after every operation against the mask/power reference model.',
+      'NR52 status bits are C19\'s; wave RAM cells written while channel 3 plays are unknown.')
+claim('C19', 'Rapid schedules (three NR10 families, per channel and mixed) of length writes, DAC toggles, triggers and length-enable toggles placed at drawn offsets in either half of the 256 Hz period, power cycles, and waits to the predicted expiry: NR52 is compared with a reference length/status model after every write and every machine cycle, including across the one-second tick wrap.',
+      'Sequencer grid phase is calibrated on a fresh instance; re-trigger at maximum length, decrease-mode sweep and never-written length counters are candidate sets.')
+claim('C20', 'Rapid register schedules over 1.2-4 emulated seconds with and without outputs: per-cycle sample counting (L = R, 95-clock spacing, 44 149-44 150 pairs per second, none while off/unattached), range and finiteness of every sample, zero when no enabled channel is routed to a side, and a paired-run metamorphic check that a side never depends on a channel not routed to it.',
+      'One 149-clock seam per emulated second (44 150 pairs) is accepted as well as the statement\'s 44 149.')
+claim('C21', 'Channels 1-3 x every 11-bit frequency and channel 4 x every NR43 with s <= 13: the observed step times must fit one constant-phase grid of the documented period; the LFSR output stream must satisfy the 15-/7-bit recurrence and have least period 32 767 / 127; the same measurements are repeated in rapid contexts.',
+      'Delay from trigger to the first step is not asserted; waveform state is observed through the verif hook.')
+claim('C23', 'Rapid direct SB/SC write/read sequences (with writer and, metamorphically, without) and rapid programs storing to SB/SC through every store form run in lock-step with the reference CPU: the writer transcript must equal the reference\'s stores to FF01 after every instruction; plus blargg ROMs with per-instruction store prediction.',
+      'Transfer timing and the serial interrupt are not part of the property.')
+
 def main():
     hooks_commits = subprocess.run(['git', '-C', '/repo', 'log', '--format=%H', '--grep=^verif hooks'], stdout=subprocess.PIPE, text=True).stdout.split()
     checks, na = [], []
